@@ -26,7 +26,42 @@ VH_DEFINE_ASSERT_HANDLER
 static long g_fail_printed = 0;
 static std::map<std::string, long> g_fail_sigs;
 
-// a pure input iterator (single pass, input_iterator_tag) over a vector
+
+// a *genuinely* single-pass input iterator (istream_iterator semantics): all copies share one stream position and each
+// iterator caches the element it read; advancing any copy consumes the stream for all of them
+template<typename V>
+struct sp_stream
+{
+    const V* cur;
+    const V* end;
+};
+template<typename V>
+struct sp_it
+{
+    using iterator_category = std::input_iterator_tag;
+    using value_type = V;
+    using difference_type = std::ptrdiff_t;
+    using pointer = const V*;
+    using reference = const V&;
+    sp_stream<V>* s = nullptr;
+    V val{};
+    sp_it() = default;
+    explicit sp_it(sp_stream<V>* st) : s(st) { read(); }
+    void read()
+    {
+        if(s && s->cur != s->end)
+            val = *s->cur++;
+        else
+            s = nullptr;
+    }
+    reference operator*() const { return val; }
+    sp_it& operator++() { read(); return *this; }
+    sp_it operator++(int) { auto c = *this; read(); return c; }
+    bool operator==(const sp_it& o) const { return s == o.s; }
+    bool operator!=(const sp_it& o) const { return s != o.s; }
+};
+
+// an input-tagged iterator over a vector (multi-pass in effect: copies are independent)
 template<typename V>
 struct in_it
 {
@@ -349,6 +384,13 @@ struct explorer
                              return long(it - d.begin());
                          },
                          [&](vec& m) { auto it = m.insert(m.begin() + pos, src.begin(), src.end()); return long(it - m.begin()); });
+                    step(s, "insert(" + S(pos) + ",single-pass" + show(src) + ")", "insert(pos=" + pc + ",single-pass-range" + sc + ")",
+                         [&](D d) {
+                             sp_stream<V> st{src.data(), src.data() + src.size()};
+                             auto it = d.insert(d.begin() + pos, sp_it<V>{&st}, sp_it<V>{});
+                             return long(it - d.begin());
+                         },
+                         [&](vec& m) { auto it = m.insert(m.begin() + pos, src.begin(), src.end()); return long(it - m.begin()); });
                 }
                 // initializer lists (sizes fixed at compile time)
                 {
@@ -411,6 +453,9 @@ struct explorer
                      [&](vec& m) { m.assign(src.begin(), src.end()); return -1L; });
                 step(s, "assign(input" + show(src) + ")", "assign(input-range)",
                      [&](D d) { d.assign(in_it<V>{src.data()}, in_it<V>{src.data() + src.size()}); return -1L; },
+                     [&](vec& m) { m.assign(src.begin(), src.end()); return -1L; });
+                step(s, "assign(single-pass" + show(src) + ")", "assign(single-pass-range)",
+                     [&](D d) { sp_stream<V> st{src.data(), src.data() + src.size()}; d.assign(sp_it<V>{&st}, sp_it<V>{}); return -1L; },
                      [&](vec& m) { m.assign(src.begin(), src.end()); return -1L; });
                 step(s, "assign_range(vector" + show(src) + ")", "assign_range(vector)",
                      [&](D d) { d.assign_range(src); return -1L; },
